@@ -257,6 +257,8 @@ func (c *Compiler) getDeviations(mod string) []string {
 			devs = append(devs, d)
 		}
 	}
+	// (collected from a map: return them in a defined order)
+	sort.Strings(devs)
 	return devs
 }
 
@@ -543,6 +545,8 @@ func (c *Compiler) getEnabledFeaturesForPrefix(name string) []string {
 				strings.TrimPrefix(featName, prefix))
 		}
 	}
+	// (collected from a map: return them in a defined order)
+	sort.Strings(features)
 	return features
 }
 
@@ -576,8 +580,16 @@ func (c *Compiler) checkIdentities() error {
 	}
 
 	// Process derived identities, building
-	// identity tree.
-	for name, ident := range ids {
+	// identity tree.  The order in which derived identities are attached
+	// to their base is the order of Identityref.Identities(): walk the
+	// map in name order, not in its random iteration order.
+	idnames := make([]string, 0, len(ids))
+	for name := range ids {
+		idnames = append(idnames, name)
+	}
+	sort.Strings(idnames)
+	for _, name := range idnames {
+		ident := ids[name]
 		verifOrder(3, name)
 		for _, base := range ident.ChildrenByType(parse.NodeBase) {
 			mod, tIdent := c.getModuleAndReference(ident.Root(), base, parse.NodeIdentity)
